@@ -127,6 +127,65 @@ def sparse_replica(pair, res, n, r):
             raise Violation("replica:reopen", "reopen answered " + ia[:80], "reopen")
 
 
+def full_page_writer(pair, res, r):
+    """a writer whose last allocated bitfield page is completely full (length = 32768): clear one block and
+    fetch it back by a proof; the contiguous length must return to the length (the skip over set bits has to
+    cross the end of a full page)"""
+    p = pair
+    p.reset(); p.raw("disk D"); p.do("new W D writer")
+    n = 32768
+    blocks = [bytes([i % 250 + 1]) for i in range(n)]
+    ia, _ = p.do("append W " + " ".join(hexb(b) for b in blocks))
+    if ia != "ok %d %d" % (n, n):
+        raise Violation("append:result", "append of %d blocks answered %s" % (n, ia[:60]), "full-page")
+    held = lambda i: i < n
+    contig_check(p, "W", held, n, "full page writer")
+    pa, _ = p.do("prove W 5,0 - - -")
+    p.do("clear W 5 6")
+    contig_check(p, "W", lambda i: i < n and i != 5, n, "full page writer after clear(5,6)")
+    if pa.startswith("ok ") and pa != "ok none":
+        aa, _ = p.do("apply W " + pa[3:])
+        if aa != "ok 1":
+            raise Violation("accept", "re-fetching the cleared block answered " + aa[:80], "full-page")
+        contig_check(p, "W", held, n, "full page writer after re-fetching block 5")
+        for i in (4, 5, 6, n - 1, n, n + 1, 2 * n):
+            a, _ = p.do("has W %d" % i)
+            if a != ("ok 1" if held(i) else "ok 0"):
+                raise Violation("has:exact", "full page writer: has(%d) = %s" % (i, a), i)
+        p.raw("drop W"); p.do("open W D")
+        contig_check(p, "W", held, n, "full page writer after re-fetch and reopen")
+    res.count("full-page-writer")
+
+
+def high_only_replica(pair, res, n, r):
+    """a replica that holds blocks only beyond the first bitfield page, then clears a range that starts on the
+    (never allocated) first page and ends on the second"""
+    w = World(pair)
+    w.w_append([bytes([i % 251]) for i in range(n)])
+    first = True
+    for i in (33000, n - 1):
+        nodes = w.missing(i)
+        ia, _ = w.prove("%d,%d" % (i, nodes), "-", "-", "0,%d" % n if first else "-")
+        aa, _ = w.apply(ia[3:])
+        if aa != "ok 1":
+            raise Violation("accept", "honest proof for block %d answered %s" % (i, aa[:80]), i)
+        w.note_applied(parse_proof(ia[3:]))
+        first = False
+    ia, _ = pair.do("clear R 32000 33500")
+    if ia != "ok":
+        raise Violation("clear:result", "clear(32000,33500) on the replica answered " + ia[:80], "clear")
+    w.rheld.pop(33000, None)
+    for rnd in range(2):
+        held = lambda i: i in w.rheld
+        for i in (0, 31999, 32000, 32767, 32768, 32999, 33000, 33001, 33499, 33500, n - 1, n):
+            a, _ = pair.do("has R %d" % i)
+            if a != ("ok 1" if held(i) else "ok 0"):
+                raise Violation("has:exact", "high-only replica%s: has(%d) = %s after clear(32000,33500)" % (" after reopen" if rnd else "", i, a), i)
+        contig_check(pair, "R", held, n, "high-only replica")
+        w.r_reopen()
+    res.count("high-only-replica")
+
+
 def main(tier, seed):
     res = Result("C08", tier, seed)
     res.gate = coq_gate("C08.v", clean=(tier == "thorough"))
@@ -135,7 +194,9 @@ def main(tier, seed):
     pair = Pair()
     try:
         cases = [("big-writer", lambda: big_writer(pair, res, [9000, 25000] if tier == "quick" else [9000, 25000, 33000], r)),
-                 ("sparse-replica", lambda: sparse_replica(pair, res, 34000 if tier == "quick" else 70000, r))]
+                 ("sparse-replica", lambda: sparse_replica(pair, res, 34000 if tier == "quick" else 70000, r)),
+                 ("full-page-writer", lambda: full_page_writer(pair, res, r)),
+                 ("high-only-replica", lambda: high_only_replica(pair, res, 34000, r))]
         for name, f in cases:
             try:
                 f()
